@@ -816,7 +816,39 @@ func (w *World) generate(rng *Rand) {
 			txs = sh
 			w.Hit("transport.shuffled_blocks")
 		}
+		// doomed batches: two or three single-message transactions of one signer become one
+		// transaction with a failing tail message - several messages execute against each
+		// other's effects on a branch that is then discarded as a whole
+		if w.Cfg.PFailTail > 0 && len(txs) > 1 {
+			var merged []*TxPlan
+			used := map[int]bool{}
+			for i, tp := range txs {
+				if used[i] {
+					continue
+				}
+				if len(tp.Ops) == 1 && !tp.NoOOG && tp.Gas == 0 && rng.Bool(5*w.Cfg.PFailTail) {
+					for j := i + 1; j < len(txs) && len(tp.Ops) < 3; j++ {
+						o := txs[j]
+						if !used[j] && len(o.Ops) == 1 && !o.NoOOG && o.Ops[0].Actor == tp.Ops[0].Actor && o.Ops[0].Mod != "engine" {
+							tp.Ops = append(tp.Ops, o.Ops[0])
+							used[j] = true
+						}
+					}
+					if len(tp.Ops) > 1 {
+						w.nextOp++
+						tp.Ops = append(tp.Ops, &Op{ID: w.nextOp, Mod: "engine", Kind: "failtail", Actor: tp.Ops[0].Actor})
+						tp.Note = "doomed-batch"
+						w.Hit("fault.doomed_batch")
+					}
+				}
+				merged = append(merged, tp)
+			}
+			txs = merged
+		}
 		for _, tp := range txs {
+			if hasFailTail(tp) {
+				continue
+			}
 			if !tp.NoOOG && w.Cfg.PFailTail > 0 && rng.Bool(w.Cfg.PFailTail) {
 				w.nextOp++
 				tp.Ops = append(tp.Ops, &Op{ID: w.nextOp, Mod: "engine", Kind: "failtail", Actor: tp.Ops[0].Actor})
